@@ -336,6 +336,14 @@ func init() {
 			g.Ghost["pending"] = smt.StrConcat(g.Ghost["pending"].(*smt.Term), c)
 			return Tuple{BLen(c), nilError()}
 		}
+		if g := ghostOf(w); g != nil {
+			// a modelled writer (base64 encoder, ...): one Write of the whole serialisation
+			if wm, ok := ghostMethods[ghostKind(g)+".Write"]; ok {
+				c := serialise(in, a[0].(*Ptr))
+				wm(in, g, []Value{in.SymBytesOfStr(c)})
+				return Tuple{BLen(c), nilError()}
+			}
+		}
 		if ts != "*bytes.Buffer" && ts != "*strings.Builder" {
 			in.end("unmodelled", "etree Document.WriteTo a %s at %s", ts, in.where())
 		}
